@@ -613,6 +613,14 @@ func (a *A) poolEscapes(item *ssa.Call, put *ssa.Function) (bad, unk []string) {
 					}
 				case k == tIter && cal.Pkg == a.P.SSAPkg && strings.HasPrefix(cal.Name(), "parse"):
 					// borrowed-bytes discipline of the parsers: property C16
+				case (k == tBytes || k == tIter) && cal.Pkg == a.P.SSAPkg && len(cal.Blocks) > 0:
+					// a helper of the package: the same confinement must hold for its parameter (followed into the callee;
+					// returning or storing it there is reported there)
+					for i, arg := range cc.Args {
+						if arg == v && i < len(cal.Params) {
+							mark(cal.Params[i], k)
+						}
+					}
 				default:
 					bad = append(bad, "passed to "+name+at)
 				}
